@@ -500,6 +500,7 @@ func suiteC08Calls(cfg Config, res *Result) {
 
 func suiteC08Shadow(cfg Config, res *Result) {
 	defer liveGlobals(res, "resolver", "c08-globals")
+	defer globalsSnapshot(res, "resolver", "c08-globals-snapshot")
 	defer nilShadowsGlobal(res, "resolver", "c08-nil-shadows-global")
 	res.Rule = "a name bound at up to three levels — the set's Globals, the caller's context, a tag (set, with, for, macro parameter, include with) — in every combination; expected by construction: the tag's binding wins over the context, which wins over the globals, and each binding ends with its construct; oracle: output equals the expected marker string; also compared with the Lean model; non-trivial = name bound at >= 2 levels; distinct by program"
 	rng := NewRNG(cfg.Seed)
